@@ -39,6 +39,8 @@ def render_item(it, gapdir=None):
         return t + ':'
     if k == 'const':
         return '%s = %d' % (t, n)
+    if k == 'raw':
+        return m
     if k == 'brk':
         return '%s %s, %s, %s' % (m, reg(a), reg(b), t)
     if k == 'jalk':
